@@ -125,6 +125,9 @@ add("C10", "formula", "exploration", "runtime monitor: differential comparison o
 add("C17", "formula", "exploration", "runtime monitor: before/after relation around one sheet rename, move or duplicate on random three-sheet workbooks (values keyed by permanent sheet id, reference lists, duplicate vs source)",
     "Values of all cells must be unchanged, the reference list of every formula must be the old one with the renamed sheet under its new name, and a duplicated sheet must show its source's values cell by cell.",
     "The generated formulas read neither sheet names nor formula text as text. Operator shapes are compared without parentheses (re-printing drops the parentheses of x+(y+z): C09's pinned finding).")
+add("C18", "codec", "exploration", "runtime monitor: metamorphic round-trip relation (display the content, type it back into the same cell) observed on content text, cell type, resolved style and value",
+    "About 110 typed inputs of every shape plus booleans, errors and formulas printed in the cell's language are typed into plain and pre-formatted cells in 5 languages x 6 locales; the displayed content is typed back and nothing the statement lists may change.",
+    "Displayed content = Model::get_localized_cell_content; values are compared to 15 significant digits. Inputs the engine refuses are not judged.")
 
 NOT_YET = {}
 
